@@ -37,6 +37,7 @@ MUTANTS = {
     "M11-": ["C15"],
     "M12-": ["C19"],
     "M13-": ["C19"],
+    "M14-": ["C19"],
 }
 
 
